@@ -18,23 +18,37 @@ _spec = importlib.util.spec_from_file_location("c04_docs", os.path.join(common.R
 G = importlib.util.module_from_spec(_spec)
 _spec.loader.exec_module(G)
 
+_spec2 = importlib.util.spec_from_file_location("c04_multibyte", os.path.join(common.ROOT, "gen", "c04_multibyte.py"))
+MB = importlib.util.module_from_spec(_spec2)
+_spec2.loader.exec_module(MB)
+
 CLAIMED = True
 LEVEL = "proof"
 TECHNIQUE = ("Lean 4 proofs over a hand transcription of FormatterToXMLUnicode (escaping, CDATA, comments/PIs, element stack, "
              "XML declaration, DOCTYPE, XalanIndentWriter) + the three writers + both 512-entry buffer layers, and over an "
              "independent specification side (strict decoders, character reader, document reader with prolog); character "
              "tables, entity / prolog strings, buffer sizes, the flush-before-direct-write shape of every bulk write, transcode "
-             "factor, CDATA guard and repair flags regenerated from "
+             "factor, CDATA guard, repair flags, the raw-text marker and the reset of m_nextIsRaw, the table of "
+             "getMaximumCharacterValue and which transcoder object answers canTranscodeTo regenerated from "
              "the source on every run; correspondence run of the real serializers (bytes, writeData chunk sizes, error kinds) "
              "against the compiled model; Xerces SAX2 re-parse of the real output as the independent specification "
              "predicate; the Lean document reader against Xerces on the real output; the Lean indentation filter replayed "
-             "through the real plain serializer against the real indenting serializer")
-LEVEL_TEXT = ("Machine-checked (38 theorems, all proved): UTF-8/UTF-16 encode-decode round trips for every scalar sequence; "
+             "through the real plain serializer against the real indenting serializer; ten transcoder-backed multi-byte / "
+             "stateful encodings and 23 single-byte encodings (both serializers) through the real code, judged by independent decoders (Python codecs, own SCSU decoder) "
+             "and an expat re-parse")
+LEVEL_TEXT = ("Machine-checked (47 theorems, all proved): UTF-8/UTF-16 encode-decode round trips for every scalar sequence; "
               "transparency and bounds of both buffer layers for every write sequence (no chunk splits an item), and with the "
               "bulk-write shape read from the source (flushBuffer() before a direct write of a run longer than the buffer, in "
               "XalanUTF8Writer, XalanUTF16Writer and XalanOutputStream::write) the units handed to the transcoder are the units "
               "of all write calls in call order, for every sequence of calls and every length "
-              "(output_is_concatenation_of_writes; kernel-checked counterexample without the flush); text and "
+              "(output_is_concatenation_of_writes; kernel-checked counterexample without the flush); for every converter "
+              "modelled as a shift-state machine, chunked transcoding with canTranscodeTo probes in between equals one-shot "
+              "transcoding when the probes do not touch the converter (transcoding_chunked_eq_oneshot; counterexample for "
+              "the shared, reset-on-probe converter); the raw-text marker PI makes exactly the next non-empty text event "
+              "unescaped and is then cleared, so every text event not preceded by it is escaped (raw_marker_used_once; "
+              "counterexample without the reset); getMaximumCharacterValue(encoding) of the legacy serializer stays below the "
+              "first unrepresentable scalar of every listed single-byte / UTF encoding (max_char_within_repertoire; Shift_JIS "
+              "is the kernel-checked exception); text and "
               "attribute-value escaping read back to the same string for every sequence of XML Chars, every writer family, both "
               "XML versions, every representability predicate covering ASCII; forbidden characters, and with the committed "
               "repairs unpaired surrogates and U+FFFE/U+FFFF, end in an error, never output; CDATA round trip for every string "
@@ -56,7 +70,9 @@ LEVEL_NOTE = ("Trusted: Lean kernel; axioms propext/Classical.choice/Quot.sound 
               "source); the hand transcription of FormatterToXMLUnicode.hpp / XalanUTF8Writer.hpp / XalanUTF16Writer.hpp / "
               "XalanOtherEncodingWriter.hpp / XalanIndentWriter.hpp / XalanOutputStream::write+transcode sizing (checked by the "
               "correspondence run, bounded by generator coverage); ICU transcoders and canTranscodeTo are parameters "
-              "(instantiated for ISO-8859-1, US-ASCII, UTF-32BE); the document reader Spec.readDocument is a restriction of a "
+              "(instantiated for ISO-8859-1, US-ASCII, UTF-32BE; the converters of ISO-2022-JP/KR, Shift_JIS, EUC-JP/KR, GB2312, GBK, Big5, "
+              "UTF-7, SCSU are not modelled beyond the abstract shift-state machine - their real output is judged by "
+              "independent decoders only); the document reader Spec.readDocument is a restriction of a "
               "conforming parser (no DTD subset, no namespaces, decimal references only; compared with Xerces on the real output "
               "wherever it returns a tree); Xerces-C is the re-parser. Hypotheses of the document theorems: strings are XML "
               "characters and names/comment/PI data literally writable (TreeOk); no empty or adjacent character-data children, "
@@ -75,6 +91,15 @@ THEOREMS = [
     "XalanModel.Props.C04.generated_bulk_flushes",
     "XalanModel.Props.C04.output_is_concatenation_of_writes",
     "XalanModel.Props.C04.bulk_without_flush_counterexample",
+    "XalanModel.Props.C04.transcoding_chunked_eq_oneshot",
+    "XalanModel.Props.C04.generated_probe_isolation",
+    "XalanModel.Props.C04.probe_shared_converter_counterexample",
+    "XalanModel.Props.C04.generated_raw_resets",
+    "XalanModel.Props.C04.raw_only_after_marker",
+    "XalanModel.Props.C04.raw_marker_used_once",
+    "XalanModel.Props.C04.raw_flag_not_reset_counterexample",
+    "XalanModel.Props.C04.max_char_within_repertoire",
+    "XalanModel.Props.C04.max_char_shift_jis_counterexample",
     "XalanModel.Props.C04.utf8_roundtrip",
     "XalanModel.Props.C04.utf16_roundtrip",
     "XalanModel.Props.C04.content_roundtrip",
@@ -266,10 +291,10 @@ def _local_candidates(doc):
                 yield (k, s, n[2])
             if n[2] is not None:
                 yield (k, n[1], None)
-        elif k in ("m", "r"):
+        elif k in ("m", "r", "rt", "rc"):
             for s in shorter(n[1]):
                 # a shrunk string must still be something ElemComment hands over (no "--", no trailing "-")
-                if k == "r" or G.strip_for_comment(s) == s:
+                if k != "m" or G.strip_for_comment(s) == s:
                     yield (k, s)
         elif k == "p":
             for s in shorter(n[2]):
@@ -458,6 +483,7 @@ def run(ctx):
     repair_correspondence(ctx, model, work, r)
     cases += boundary_cases(ctx.thorough)
     cases += long_run_cases(ctx.thorough)
+    cases += raw_marker_cases(ctx.thorough)
     if ctx.thorough:
         cases += exhaustive_cases()
 
@@ -527,12 +553,82 @@ def run(ctx):
             j3 = judge(f[0], f[1], f[2], sm, i2)
             if j3 is not None:
                 ctx.fail(j3[0], j3[1], request_line(f[0], f[1], f[2], sm))
+    multibyte_cases(ctx, harness, work, r)
     ctx.extra["model_disagreements"] = disagreements
     ctx.extra["harness_crashes_while_shrinking"] = CRASHES[:10]
     ctx.oblige("correspondence: FormatterToXMLUnicode (real code, bytes + writeData chunk sizes + error kind) = Lean model on every generated script",
                "correspondence", agree, json.dumps(disagreements)[:1800])
     ctx.oblige("harness exits cleanly", "correspondence", irc == 0 or len(il) < len(lines), ierr[-1200:])
     ctx.exhaustive = False
+
+
+def judge_multibyte(enc, doc, reply):
+    """None or (class, what): the real bytes are decoded strictly by Python's codec for the declared encoding (SCSU: the
+    decoder of gen/c04_multibyte.py), the decoded text is re-parsed by expat, and the events must be the tree"""
+    if reply.startswith("err"):
+        return ("mb-spurious-error", "serializer raised an error: " + reply[:200])
+    if not reply.startswith("ok "):
+        return ("mb-crash", "no reply / harness died: " + reply[:300])
+    data = bytes.fromhex(reply.split()[1]) if reply.split()[1] != "-" else b""
+    try:
+        text = MB.decode_sb(enc, data) if enc in MB.SINGLE_BYTE else MB.decode(enc, data)
+    except Exception as ex:
+        return ("mb-undecodable", "output is not valid %s: %s" % (enc, str(ex)[:160]))
+    try:
+        got = MB.reparse(text)
+    except Exception as ex:
+        return ("mb-not-well-formed", "decoded output is not well-formed: %s" % str(ex)[:160])
+    exp = G.expected(doc)
+    if got != exp:
+        k = 0
+        while k < min(len(got), len(exp)) and got[k] == exp[k]:
+            k += 1
+        a, b = (got[k] if k < len(got) else "<end>"), (exp[k] if k < len(exp) else "<end>")
+        pos = 0
+        if a[:2] == b[:2] == "t:":
+            ua, ub = G.unhx(a[2:]), G.unhx(b[2:])
+            while pos < min(len(ua), len(ub)) and ua[pos] == ub[pos]:
+                pos += 1
+            a, b = "t:…" + G.hx(ua[pos:pos + 12]), "t:…" + G.hx(ub[pos:pos + 12])
+        return ("mb-parse-differs", "decoded and re-parsed output differs from the tree at event %d, unit %d: got %s expected %s"
+                % (k, pos, a[:80], b[:80]))
+    return None
+
+
+def multibyte_cases(ctx, harness, work, r):
+    """transcoder-backed multi-byte / stateful encodings (no Lean converter model): real serializer, independent decoder,
+    expat re-parse.  Key: "<class> multibyte/<encoding>/<script kind>" """
+    todo = []
+    for enc in MB.ENCODINGS:
+        for name, doc in MB.scripts(r, enc, ctx.thorough):
+            todo.append(("U", enc, name, doc))
+    # single-byte encodings beside ISO-8859-1: characters just inside / outside each repertoire, BOTH serializers
+    # (the legacy one decides by getMaximumCharacterValue(encoding), the factory one asks the transcoder)
+    for enc in MB.SINGLE_BYTE:
+        for name, doc in MB.scripts_sb(r, enc, ctx.thorough):
+            todo.append(("U", enc, name, doc))
+            todo.append(("L", enc, name, doc))
+    # the legacy serializer with the one multi-byte encoding its table lists
+    todo.append(("L", "Shift_JIS", "short", ("el", G.u("r"), [], [("t", G.u("a\u00e9\u30a2b"), None)])))
+    lines = [request_line(k, enc, "1.0", doc) for k, enc, name, doc in todo]
+    replies = run_impl(harness, lines, work, "multibyte")
+    per = {}
+    nfail = 0
+    agree = {}
+    for (k, enc, name, doc), line, reply in zip(todo, lines, replies + ["crash"] * (len(lines) - len(replies))):
+        ctx.case(nontrivial_key=line, sample=None, cls="%s/%s/1.0" % (k, enc))
+        st = per.setdefault(enc + ("" if k == "U" else " (legacy)"), {"documents": 0, "ok": 0})
+        st["documents"] += 1
+        j = judge_multibyte(enc, doc, reply)
+        if j is None:
+            st["ok"] += 1
+            continue
+        nfail += 1
+        ctx.fail("%s %s/%s/%s" % (j[0], "multibyte" if k == "U" else "multibyte-legacy", enc, name.split(":")[0]),
+                 j[1] + " ; impl: " + strip_parse(reply)[:200], line[:4000])
+    ctx.extra["multibyte"] = per
+    ctx.oblige("multi-byte / stateful encodings (%s): %d documents through the real serializer, decoded by an independent decoder"
+               % (", ".join(list(MB.ENCODINGS) + list(MB.SINGLE_BYTE)), len(todo)), "correspondence", len(replies) == len(lines), "harness died")
 
 
 def repair_correspondence(ctx, model, work, r):
@@ -699,6 +795,30 @@ def boundary_cases(thorough):
     return out
 
 
+def raw_marker_cases(thorough):
+    """directed: the marker PI that makes the NEXT text node unescaped (m_nextIsRaw) in front of characters and of cdata,
+    followed by ordinary text with markup characters - which must be escaped again -, with a comment, a start tag or an
+    empty text event in between; both serializers, every encoding"""
+    out = []
+    sp = G.u("<hr/>&")
+    docs = [
+        _el(("rt", G.u("ab")), ("t", sp, None)),
+        _el(("rc", G.u("ab")), ("t", sp, None)),
+        _el(("rc", G.u("ab")), ("m", G.u("c")), ("t", G.u("<"), None), ("el", G.u("e"), [(G.u("k"), G.u("<&"))], [("c", G.u("x>y"), None)])),
+        _el(("mk",), ("el", G.u("e"), [], [("t", G.u("plain"), None)]), ("t", G.u("<b>"), None)),
+        _el(("mk",), ("t", [], None), ("t", G.u("plain"), None), ("m", G.u("c")), ("t", G.u("&"), None)),
+        _el(("rt", G.u("ab")), ("rc", G.u("cd")), ("t", G.u("<"), None), ("c", G.u("]]>&"), None)),
+        _el(("t", [120] * 505, None), ("rc", G.u("abcdefghijklmnop")), ("t", sp * 3, None)),
+    ]
+    for enc in ENCODINGS:
+        for ver in (VERSIONS if thorough else ["1.0"]):
+            for d in docs:
+                out.append(("U", enc, ver, d, "raw-marker"))
+                if enc != "UTF-32BE":
+                    out.append(("L", enc, ver, d, "raw-marker"))
+    return out
+
+
 LONG_RUNS = [511, 512, 513, 1023, 1024, 1025, 2049]
 
 
@@ -807,6 +927,9 @@ def parse_request(evs):
         elif ev[0] in ("m", "r"):
             stack[-1][3].append((ev[0], G.unhx(f[0])))
         elif ev[0] == "p":
-            stack[-1][3].append(("p", G.unhx(f[0]), G.unhx(f[1])))
+            if (G.unhx(f[0]), G.unhx(f[1])) == G.RAW_MARKER:
+                stack[-1][3].append(("mk",))
+            else:
+                stack[-1][3].append(("p", G.unhx(f[0]), G.unhx(f[1])))
     return stack[0][3][0]
 
